@@ -138,7 +138,7 @@ PROPS = {
     },
     "C03": {
         "level": "proof",
-        "units": ["namecheck", "namebuilder", "nameparse"],
+        "units": ["namecheck", "namebuilder", "nameparse", "zfsource"],
         "extra_searches": [
             {"bin": "c07_search_layouts", "crate": "replay_net", "release": True,
              "what": "names from the zone-file scanner (shared with C07): labels of 63 / 64 / 65 octets written plainly, with a decimal or a character "
